@@ -20,7 +20,9 @@
 (* path[cm + 1] here.                                                       *)
 EXTENDS FoxRadix, Integers
 
-\* the repairs that are in force; removing one must make MC_Lookup find a disagreement with FoxMatch
+\* the repairs (F..) and the rules of the walk (T.. keep the first trailing-slash candidate, S.. remember the skipped
+\* alternatives, P1 drop the parameters of an abandoned branch) that are in force; removing any one must make MC_Lookup
+\* find a disagreement with FoxMatch, and the table and request it finds become permanent replay vectors
 CONSTANT Fixes
 On(f) == f \in Fixes
 
@@ -94,7 +96,7 @@ CatchLoop(st, path, inode, par, start, cm) ==
          cap == <<par.name, SubSeq(path, start + 1, cm2)>>
      IN IF sub.n = <<>> THEN CatchLoop(st, path, inode, par, start, cm2 + 1)
         ELSE IF sub.tsr THEN
-             CatchLoop(IF st.tsr THEN st
+             CatchLoop(IF st.tsr /\ On("T5") THEN st
                        ELSE [st EXCEPT !.tsr = TRUE, !.tn = sub.n, !.tps = st.ps \o <<cap>> \o sub.tps],
                        path, inode, par, start, cm2 + 1)
         ELSE Hit(sub.n, st.ps \o <<cap>> \o sub.ps)
@@ -114,44 +116,47 @@ AfterInner(st, path) ==
            Sk(ci) == [n |-> cur, cm |-> st.cm, pcnt |-> st.pcnt, ci |-> ci]
            down(s, ci) == Outer([s EXCEPT !.pr = cur.r, !.cur = cur.c[ci], !.pk = 0], path)
        IN IF si = 0 THEN
-             LET s1 == IF On("F4") /\ ~st.tsr /\ IsLeaf(cur) /\ st.cm = Len(path) - 1 /\ path[st.cm + 1] = "/" /\ st.cmn = Len(cur.k)
+             LET s1 == IF On("F4") /\ (On("T1") => ~st.tsr) /\ IsLeaf(cur) /\ st.cm = Len(path) - 1 /\ path[st.cm + 1] = "/" /\ st.cmn = Len(cur.k)
                          THEN [st EXCEPT !.tsr = TRUE, !.tn = cur.r, !.tps = st.ps]                       \* [F4]
                        ELSE st
-             IN IF pi # 0 THEN down(IF wi # 0 THEN [s1 EXCEPT !.skip = Append(@, Sk(wi))] ELSE s1, pi)
+             IN IF pi # 0 THEN down(IF wi # 0 /\ On("S1") THEN [s1 EXCEPT !.skip = Append(@, Sk(wi))] ELSE s1, pi)
                 ELSE IF wi # 0 THEN down(s1, wi)
                 ELSE Post(s1, path)
-          ELSE LET s1 == IF wi # 0 THEN [st EXCEPT !.skip = Append(@, Sk(wi))] ELSE st
-                   s2 == IF pi # 0 THEN [s1 EXCEPT !.skip = Append(@, Sk(pi))] ELSE s1
+          ELSE LET s1 == IF wi # 0 /\ On("S3") THEN [st EXCEPT !.skip = Append(@, Sk(wi))] ELSE st
+                   s2 == IF pi # 0 /\ On("S2") THEN [s1 EXCEPT !.skip = Append(@, Sk(pi))] ELSE s1
                IN down(s2, si)
 
 \* the walk stopped: direct match, trailing-slash candidate, or backtrack
 Post(st, path) ==
   LET cur == st.cur
       key == cur.k
-      mark(route) == IF st.tsr THEN st ELSE [st EXCEPT !.tsr = TRUE, !.tn = route, !.tps = st.ps]
+      set(route) == [st EXCEPT !.tsr = TRUE, !.tn = route, !.tps = st.ps]
+      mark(route) == IF st.tsr THEN st ELSE set(route)
+      \* the first trailing-slash candidate found is kept; T2 .. T4 switch that rule off at one place each
+      keep(site) == st.tsr /\ On(site)
   IN IF ~IsLeaf(cur) THEN
         Backtrack(
-          IF st.tsr THEN st
-          ELSE IF EndsSlash(path) /\ st.pr # <<>> /\ st.cm = Len(path) /\ (On("F5") => st.cmn = 1) THEN mark(st.pr)   \* [F5]
+          IF keep("T2") THEN st
+          ELSE IF EndsSlash(path) /\ st.pr # <<>> /\ st.cm = Len(path) /\ (On("F5") => st.cmn = 1) THEN set(st.pr)    \* [F5]
           ELSE IF On("F3") /\ st.cm = Len(path) /\ st.cmn = Len(key) /\ ~EndsSlash(path) THEN              \* [F3]
                LET i == ChildIdx(cur, "/") IN
-               IF i # 0 /\ Len(cur.c[i].k) = 1 /\ IsLeaf(cur.c[i]) THEN mark(cur.c[i].r) ELSE st
+               IF i # 0 /\ Len(cur.c[i].k) = 1 /\ IsLeaf(cur.c[i]) THEN set(cur.c[i].r) ELSE st
           ELSE st, path)
      ELSE IF st.cm = Len(path) /\ st.cmn = Len(key) THEN [n |-> cur.r, tsr |-> FALSE, ps |-> st.ps, tps |-> <<>>]
      ELSE IF st.cm = Len(path) /\ st.cmn < Len(key) THEN
         Backtrack(
-          IF st.tsr THEN st
-          ELSE IF EndsSlash(path) THEN (IF st.pr # <<>> /\ st.cmn = 1 /\ key[1] = "/" THEN mark(st.pr) ELSE st)
-          ELSE (IF Len(key) - st.cmn = 1 /\ LastOf(key) = "/" THEN mark(cur.r) ELSE st), path)
+          IF keep("T3") THEN st
+          ELSE IF EndsSlash(path) THEN (IF st.pr # <<>> /\ st.cmn = 1 /\ key[1] = "/" THEN set(st.pr) ELSE st)
+          ELSE (IF Len(key) - st.cmn = 1 /\ LastOf(key) = "/" THEN set(cur.r) ELSE st), path)
      ELSE IF st.cm < Len(path) /\ st.cmn = Len(key) THEN
-        Backtrack(IF ~st.tsr /\ Len(path) - st.cm = 1 /\ LastOf(path) = "/" THEN mark(cur.r) ELSE st, path)
+        Backtrack(IF ~keep("T4") /\ Len(path) - st.cm = 1 /\ LastOf(path) = "/" THEN set(cur.r) ELSE st, path)
      ELSE Backtrack(st, path)
 
 Backtrack(st, path) ==
   IF st.skip = <<>> THEN [n |-> st.tn, tsr |-> st.tsr, ps |-> st.ps, tps |-> st.tps]
   ELSE LET sk == LastOf(st.skip) IN
        Outer([st EXCEPT !.skip = DropLast(@), !.pr = sk.n.r, !.cur = sk.n.c[sk.ci],
-                        !.ps = Take(@, sk.pcnt), !.pcnt = IF On("F1") THEN sk.pcnt ELSE 0,                 \* [F1]
+                        !.ps = IF On("P1") THEN Take(@, sk.pcnt) ELSE @, !.pcnt = IF On("F1") THEN sk.pcnt ELSE 0,   \* [F1]
                         !.cm = sk.cm, !.pk = 0], path)
 
 \* ---- the hostname walk (lookupByDomain) ---------------------------------------------------------------
@@ -190,7 +195,7 @@ HChild(st, host, path) ==
        IN IF si = 0 THEN
              IF pi # 0 THEN HWalk([st EXCEPT !.cur = cur.c[pi], !.pk = 0], host, path)
              ELSE HAfter(st, host, path)
-          ELSE HWalk([st EXCEPT !.skip = IF pi # 0 THEN Append(@, [n |-> cur, cm |-> st.cm, pcnt |-> st.pcnt, ci |-> pi]) ELSE @,
+          ELSE HWalk([st EXCEPT !.skip = IF pi # 0 /\ On("S4") THEN Append(@, [n |-> cur, cm |-> st.cm, pcnt |-> st.pcnt, ci |-> pi]) ELSE @,
                                 !.cur = cur.c[si], !.pk = 0], host, path)
 
 HAfter(st, host, path) ==
@@ -201,7 +206,7 @@ HAfter(st, host, path) ==
      ELSE LET sub == LookupPath(cur.c[i], path) IN
           IF sub.n = <<>> THEN HBack(st, host, path)
           ELSE IF sub.tsr THEN
-               HBack(IF st.tsr THEN st ELSE [st EXCEPT !.tsr = TRUE, !.tn = sub.n, !.tps = st.ps \o sub.tps], host, path)
+               HBack(IF st.tsr /\ On("T6") THEN st ELSE [st EXCEPT !.tsr = TRUE, !.tn = sub.n, !.tps = st.ps \o sub.tps], host, path)
           ELSE Hit(sub.n, st.ps \o sub.ps)
   ELSE HBack(st, host, path)
 
